@@ -35,6 +35,20 @@ CHECKS['C05'] = dict(
     technique='contract-based deductive verification: chain links of the real loop body as step function + z3; bounded stand-in for the tokenizer',
 )
 
+CHECKS['C06'] = dict(
+    category='proof',
+    text=('Unification.__call__ (with its closure scan inlined), scan_deep, __getitem__ and rec are symbolically executed from the real ast. '
+          '__call__ is verified once per pattern pair harvested from the grammars on this run, for ALL category pairs: result <=> Match spec '
+          '(shape with | wildcard, repeated variables equal up to features, positional feature compatibility), bindings, success/done flags, '
+          'second call raises, mapping invariant (keys are variable features, values are features of the inputs). The loop over the unordered key set '
+          'is handled by a context-free body summary + invariant (init/preservation/exit), so every iteration order is covered. scan_deep/rec are proved '
+          'against recursive spec functions with their own contracts at recursive calls; induction lemmas for nleaves/leaf/subst. '
+          'A BOUNDED run-time contract on the real class (harvested + seeded random patterns) is added and labelled bounded.'),
+    design_ref='DESIGN.md section 4, C06',
+    note=TB_PY + '; uniform feature system precondition; key formatting abstraction (see evidence.assumptions)',
+    technique='contract-based deductive verification: PyVC per-pattern symbolic execution with loop-summary rule + z3; bounded run-time contract as stand-in for random patterns',
+)
+
 NA_REASON = {}
 
 
